@@ -26,6 +26,20 @@ def run(chk):
     base += [f for f in framegen.make_ruzstd_frames(rng, 10 if thorough else 4, 'small') if f.get('frame')]
     base += synth.make_sequence_frames(rng, 20 if thorough else 8)
     base = [f for f in base if len(f['frame']) < 6000]
+    # the same frames with a dictionary-id field that is present but zero ("no dictionary"): legal, rarely produced
+    extra = []
+    for f in base[:12]:
+        h = framegen.parse_frame_header(f['frame'])
+        if h and (h['desc'] & 3) == 0:
+            n = rng.choice([1, 2, 4])
+            flag = {1: 1, 2: 2, 4: 3}[n]
+            fr = f['frame']
+            p = 5 + (0 if h['single'] else 1)
+            g = dict(f)
+            g['frame'] = fr[:4] + bytes([fr[4] | flag]) + fr[5:p] + bytes(n) + fr[p:]
+            g['cls'] = f['cls'] + '+zero-dictid%d' % n
+            extra.append(g)
+    base += extra
     # ---- (1) truncation
     cases, lines = [], []
     for f in base:
